@@ -401,7 +401,34 @@ class SymNum:
             return SymNum.lift(item())
         return None
 
-    def _bin(self, o: Any, f: Callable[[Any, Any], Any], int_closed: bool = True, swap: bool = False):
+    def _nonfinite(self, o: Any, op: str, swap: bool) -> Any:
+        """IEEE result of <finite symbolic> op <inf/nan> (or swapped); the proxy itself is always finite."""
+        if o != o:
+            return o
+        if op in ("add",):
+            return o
+        if op == "sub":
+            return o if swap else -o
+        if op == "div" and not swap:
+            return 0.0  # finite / +-inf (the sign of the zero is not modelled)
+        pos = cur().branch(self.z > 0)
+        if op == "mul":
+            if pos:
+                return o
+            if cur().branch(self.z < 0):
+                return -o
+            return float("nan")
+        if op == "div":
+            if pos:
+                return o
+            if cur().branch(self.z < 0):
+                return -o
+            raise ZeroDivisionError("float division by zero")
+        raise Unsupported(f"non-finite operand in {op}")
+
+    def _bin(self, o: Any, f: Callable[[Any, Any], Any], int_closed: bool = True, swap: bool = False, op: str = ""):
+        if isinstance(o, float) and (o != o or o in (float("inf"), float("-inf"))):
+            return self._nonfinite(o, op, swap)
         lo = SymNum.lift(o)
         if lo is None:
             return NotImplemented
@@ -411,22 +438,22 @@ class SymNum:
         return SymNum(f(a, b), tag)
 
     def __add__(self, o):
-        return self._bin(o, lambda a, b: a + b)
+        return self._bin(o, lambda a, b: a + b, op="add")
 
     def __radd__(self, o):
-        return self._bin(o, lambda a, b: a + b, swap=True)
+        return self._bin(o, lambda a, b: a + b, swap=True, op="add")
 
     def __sub__(self, o):
-        return self._bin(o, lambda a, b: a - b)
+        return self._bin(o, lambda a, b: a - b, op="sub")
 
     def __rsub__(self, o):
-        return self._bin(o, lambda a, b: a - b, swap=True)
+        return self._bin(o, lambda a, b: a - b, swap=True, op="sub")
 
     def __mul__(self, o):
-        return self._bin(o, lambda a, b: a * b)
+        return self._bin(o, lambda a, b: a * b, op="mul")
 
     def __rmul__(self, o):
-        return self._bin(o, lambda a, b: a * b, swap=True)
+        return self._bin(o, lambda a, b: a * b, swap=True, op="mul")
 
     def __neg__(self):
         return SymNum(-self.z, self.tag)
@@ -443,12 +470,16 @@ class SymNum:
         return num / den
 
     def __truediv__(self, o):
+        if isinstance(o, float) and (o != o or o in (float("inf"), float("-inf"))):
+            return self._nonfinite(o, "div", False)
         lo = SymNum.lift(o)
         if lo is None:
             return NotImplemented
         return SymNum(self._div(self.z, lo[0]), False)
 
     def __rtruediv__(self, o):
+        if isinstance(o, float) and (o != o or o in (float("inf"), float("-inf"))):
+            return self._nonfinite(o, "div", True)
         lo = SymNum.lift(o)
         if lo is None:
             return NotImplemented
@@ -500,6 +531,11 @@ class SymNum:
 
     # -- comparisons ----------------------------------------------------------------------------
     def _cmp(self, o: Any, f: Callable[[Any, Any], Any], default: Any):
+        if isinstance(o, float) and (o != o or o in (float("inf"), float("-inf"))):
+            if o != o:
+                return f(0, 1) is True and f(1, 0) is True  # only != holds against NaN
+            big = 1 if o > 0 else -1
+            return bool(f(0, big))  # any finite value compares with +-inf like 0 does
         lo = SymNum.lift(o)
         if lo is None:
             return default
